@@ -2943,34 +2943,67 @@ func ruleTemplateDataIsLabels(r *Run) {
 				continue
 			}
 			n++
-			v := unspill(c.Common().Args[2])
-			ok := true
-			for _, lv := range phiLeaves(v) {
-				x := lv
-				if mi, isMI := x.(*ssa.MakeInterface); isMI {
-					x = unspill(mi.X)
+			var isLabels func(v ssa.Value, d int) bool
+			isLabels = func(v ssa.Value, d int) bool {
+				if d > 4 {
+					return false
 				}
-				okLeaf := false
-				for _, l2 := range phiLeaves(x) {
-					if call, isCall := l2.(*ssa.Call); isCall && callIs(call, eng, "(*LabelSet).AsMap") {
-						okLeaf = true
-					} else {
-						okLeaf = false
-						break
+				v = unspill(v)
+				if mi, isMI := v.(*ssa.MakeInterface); isMI {
+					v = unspill(mi.X)
+				}
+				leaves := phiLeaves(v)
+				if len(leaves) == 0 {
+					return false
+				}
+				for _, l2 := range leaves {
+					l2 = unspill(l2)
+					if mi, isMI := l2.(*ssa.MakeInterface); isMI {
+						l2 = unspill(mi.X)
 					}
+					if call, isCall := l2.(*ssa.Call); isCall && callIs(call, eng, "(*LabelSet).AsMap") {
+						continue
+					}
+					// a shared render helper: the data is what every caller passes
+					if q, isP := spillParam(l2).(*ssa.Parameter); isP && q.Parent() != nil {
+						h := q.Parent()
+						idx := -1
+						for i, prm := range h.Params {
+							if prm == q {
+								idx = i
+							}
+						}
+						calls, okAll := 0, idx >= 0
+						for _, g := range p.SrcFuncs() {
+							if pkgOfFunc(g) != pkgOfFunc(h) {
+								continue
+							}
+							for _, c2 := range callsIn(g) {
+								if staticCallee(c2) == h && idx < len(c2.Common().Args) {
+									calls++
+									if !isLabels(c2.Common().Args[idx], d+1) {
+										okAll = false
+									}
+								}
+							}
+						}
+						if okAll && calls > 0 {
+							continue
+						}
+					}
+					return false
 				}
-				if !okLeaf {
-					ok = false
-				}
+				return true
 			}
+			ok := isLabels(c.Common().Args[2], 0)
 			if !ok {
 				good = false
 				o.Fail(r.pos(c.Pos()), "%s executes a template over %s, which is not always the record's label map", shortFuncName(fn), describe(c.Common().Args[2], 0))
 			}
 		}
 	}
-	if n < 2 {
-		o.Fail("-", "only %d template Execute call(s) found in the engine", n)
+	if n < 1 {
+		o.Fail("-", "no template Execute call found in the engine")
 		return
 	}
 	if good {
@@ -3163,9 +3196,43 @@ func ruleNowAtRunTime(r *Run) {
 				continue
 			}
 			n++
-			a := unspill(c.Common().Args[0])
-			call, ok := a.(*ssa.Call)
-			if !ok || func() bool { pk, nm := calleePkgName(call); return pk != "time" || nm != "Now" }() || call.Parent() != fn {
+			var isNow func(v ssa.Value, user *ssa.Function, d int) bool
+			isNow = func(v ssa.Value, user *ssa.Function, d int) bool {
+				if d > 3 {
+					return false
+				}
+				a := unspill(v)
+				if call, ok := a.(*ssa.Call); ok {
+					pk, nm := calleePkgName(call)
+					return pk == "time" && nm == "Now" && call.Parent() == user
+				}
+				// a parameter of the run function: what its callers pass, evaluated where they call it
+				if q, ok := spillParam(a).(*ssa.Parameter); ok && q.Parent() == user {
+					idx := -1
+					for i, prm := range user.Params {
+						if prm == q {
+							idx = i
+						}
+					}
+					calls, okAll := 0, idx >= 0
+					for _, g := range p.SrcFuncs() {
+						if pkgPathOf(g) != cm {
+							continue
+						}
+						for _, c2 := range callsIn(g) {
+							if staticCallee(c2) == user && idx < len(c2.Common().Args) {
+								calls++
+								if !isNow(c2.Common().Args[idx], g, d+1) {
+									okAll = false
+								}
+							}
+						}
+					}
+					return okAll && calls > 0
+				}
+				return false
+			}
+			if !isNow(c.Common().Args[0], fn, 0) {
 				good = false
 				o.Fail(r.pos(c.Pos()), "parseTimeRange is given %s as now, not time.Now() taken when the query runs", describe(c.Common().Args[0], 0))
 			}
